@@ -68,6 +68,9 @@ func (caller serverInitCaller) Call(s *slip.Scope, args slip.List, depth int) sl
 	serv := &server{
 		cons: map[string]*connection{},
 	}
+	if len(args)%2 != 0 {
+		slip.ErrorPanic(s, depth, "extra arguments that are not keyword and value pairs")
+	}
 	for i := 0; i < len(args); i += 2 {
 		if slip.Symbol(":port") == args[i] {
 			if num, ok := args[i+1].(slip.Fixnum); ok {
